@@ -318,20 +318,20 @@ fn gen_history(rng: &mut Rng, cx: &mut Ctx, cfg: &GenCfg) {
                 let n = if rng.chance(1, 5) {
                     "packed-refs".to_string()
                 } else if rng.chance(1, 2) {
-                    let l = leaf_name(&view, *rng.pick(&NAMES));
+                    let l = leaf_name(&view, *rng.pick(&EDIT_NAMES));
                     if l == GHOST {
                         "refs/heads/a".to_string()
                     } else {
                         l
                     }
                 } else {
-                    rng.pick(&NAMES).to_string()
+                    rng.pick(&EDIT_NAMES).to_string()
                 };
                 Op::Lock(n)
             } else if r < 38 {
                 match cx.foreign.iter().nth(rng.usize(cx.foreign.len().max(1))) {
                     Some(n) => Op::Unlock(n.clone()),
-                    None => Op::Unlock(rng.pick(&NAMES).to_string()),
+                    None => Op::Unlock(rng.pick(&EDIT_NAMES).to_string()),
                 }
             } else if r < 42 && cx.foreign.is_empty() {
                 Op::GitPack {
@@ -430,6 +430,7 @@ fn main() {
     let cfg = GenCfg {
         backoff: true,
         missing_oid: true,
+        log_only: true,
     };
     if let Some(ops) = replay_ops(&args) {
         for line in ops {
